@@ -54,18 +54,36 @@ def wrapOperand (parent : BinOp) (isRhs : Bool) (e : PExp) (s : String) : String
 /-- operand of the range sugar / of a unary operator: parenthesised unless `is_leaf` -/
 def wrapLeaf (e : PExp) (s : String) : String := if e.isLeaf then s else "(" ++ s ++ ")"
 
-/-- `Display for FunctionCall`: `std_fn_to_string` prints `range(from, to, <boolean literal>)` as
-`from..to` / `from..=to`; everything else is `name(arg, …)`. -/
-def callText (n : String) (args : List PExp) (ss : List String) : String :=
-  match n, args, ss with
-  | "range", [a, b, .bool incl], [sa, sb, _] => wrapLeaf a sa ++ (if incl then "..=" else "..") ++ wrapLeaf b sb
-  | _, _, _ => n ++ "(" ++ joinWith ", " ss ++ ")"
+/-- `Display for FunctionCall` (after 10f80da): always `name(arg, …)`; the sugar of `std_fn_to_string` is only
+written where an iterator is expected (`iterText`). -/
+def callText (n : String) (ss : List String) : String := n ++ "(" ++ joinWith ", " ss ++ ")"
 
-/-- one index of `Display for CompoundVariable` given the index's `Display` text -/
+/-- `FunctionCall::to_iterator_string` behind `Display for IterableSet`: `std_fn_to_string` prints
+`range(from, to, <boolean literal>)` as `from..to` / `from..=to`; everything else keeps its `Display`. -/
+def iterText (e : PExp) (s : String) (ss : List String) : String :=
+  match e, ss with
+  | .call "range" [a, b, .bool incl], [sa, sb, _] => wrapLeaf a sa ++ (if incl then "..=" else "..") ++ wrapLeaf b sb
+  | _, _ => s
+
+/-- a decimal index that `Display for CompoundVariable` (after 7352fcb) writes bare: integral, `>= 0.0` and below
+2^63 — on the display text: all digits with a value below 2^63, or `-0` (`-0.0 >= 0.0` holds) -/
+def numIndexBare (t : String) : Bool :=
+  t == "-0" || (!t.toList.isEmpty && t.toList.all isDigit && decide (t.toList.foldl (fun n c => 10 * n + (c.toNat - '0'.toNat)) 0 < 9223372036854775808))
+
+/-- a string index that is written bare: a literal name fragment `_2`, `__ab` (leading underscores, then a
+non-empty alphanumeric run) -/
+def strIndexBare (t : String) : Bool :=
+  let cs := t.toList
+  let rest := cs.dropWhile (· == '_')
+  cs.head? == some '_' && !rest.isEmpty && rest.all (fun c => isLetter c || isDigit c)
+
+/-- one index of `Display for CompoundVariable` given the index's `Display` text: a non-negative integer, an
+integral decimal, a name fragment and a variable are written bare, everything else in braces -/
 def indexText (e : PExp) (s : String) : String :=
   match e with
-  | .int _ | .num _ => s
-  | .str t => t
+  | .int _ => s
+  | .num t => if numIndexBare t then s else "{" ++ s ++ "}"
+  | .str t => if strIndexBare t then t else "{" ++ s ++ "}"
   | .var n => n
   | _ => "{" ++ s ++ "}"
 
@@ -80,7 +98,7 @@ def fmtExp : PExp → String
   | .var n => varText n
   | .cvar n idx => n ++ "_" ++ joinWith "_" (fmtIndexes idx)
   | .access n acc => n ++ String.join (fmtAccesses acc)
-  | .call n args => callText n args (fmtList args)
+  | .call n args => callText n (fmtList args)
   | .block k es => k ++ " { " ++ joinWith ", " (fmtList es) ++ " }"
   | .scoped k vs its body => k ++ "(" ++ joinWith ", " (fmtIters vs its) ++ ") { " ++ fmtExp body ++ " }"
   | .bin op l r =>
@@ -98,8 +116,12 @@ def fmtAccesses : List PExp → List String
   | e :: es => ("[" ++ fmtExp e ++ "]") :: fmtAccesses es
 /-- `Display for IterableSet`: `{var} in {iterator}` -/
 def fmtIters : List IterVar → List PExp → List String
-  | v :: vs, e :: es => (v.text ++ " in " ++ fmtExp e) :: fmtIters vs es
+  | v :: vs, e :: es => (v.text ++ " in " ++ fmtIter e) :: fmtIters vs es
   | _, _ => []
+/-- the iterator of an iteration: a call is written by `to_iterator_string` -/
+def fmtIter : PExp → String
+  | .call n args => iterText (.call n args) (callText n (fmtList args)) (fmtList args)
+  | e => fmtExp e
 end
 
 /-- `to_string_with_precedence` -/
